@@ -5,6 +5,7 @@ mod common;
 mod conc;
 mod heap;
 mod lang;
+mod prims;
 mod bytecode;
 mod host;
 
@@ -93,6 +94,7 @@ fn main() {
         "conc" => conc::cmd(rest),
         "heap" => heap::cmd(rest),
         "lang" => lang::cmd(rest),
+        "prims" => prims::cmd(rest),
         _ => usage(),
     }
 }
